@@ -2,6 +2,7 @@
 //! verif-harness: runs the real aiken/uplc code next to the Lean models.
 //!   verif-harness <sub-command> [--seed N] [--tier quick|thorough] [--out file] [--replay file]
 mod c15;
+mod c16;
 mod driver;
 mod prng;
 mod report;
@@ -41,7 +42,8 @@ fn main() {
                 ctx.replay = Some(args[i + 1].clone());
                 i += 1;
             }
-            other => panic!("unknown argument {other}"),
+            // extra arguments belong to the sub-command (parsed there)
+            _ => {}
         }
         i += 1;
     }
@@ -49,6 +51,7 @@ fn main() {
     std::panic::set_hook(Box::new(|_| {}));
     let rep = match sub.as_str() {
         "c15-names" => c15::names(&ctx),
+        "c16-shrink" => c16::shrink(&ctx),
         other => {
             eprintln!("unknown sub-command {other}");
             std::process::exit(2);
